@@ -170,6 +170,7 @@ class SimulatorBase(
         circuit: cirq.AbstractCircuit,
         sim_state: SimulationStateBase[TSimulationState],
         all_measurements_are_terminal: bool = False,
+        noise_qubits: Sequence[cirq.Qid] | None = None,
     ) -> Iterator[TStepResultBase]:
         """Standard iterator over StepResult from Moments of a Circuit.
 
@@ -180,6 +181,9 @@ class SimulatorBase(
                 documentation of the implementing class for details.
             all_measurements_are_terminal: Whether all measurements in the
                 given circuit are terminal.
+            noise_qubits: The system qubits handed to the noise model. Needed when
+                `circuit` is only a part of the simulated program, whose other qubits
+                are idle here; defaults to the qubits of `circuit`.
 
         Yields:
             StepResults from simulating a Moment of the Circuit.
@@ -192,7 +196,9 @@ class SimulatorBase(
             yield self._create_step_result(sim_state)
             return
 
-        noisy_moments = self.noise.noisy_moments(circuit, sorted(circuit.all_qubits()))
+        if noise_qubits is None:
+            noise_qubits = sorted(circuit.all_qubits())
+        noisy_moments = self.noise.noisy_moments(circuit, noise_qubits)
         measured: set[cirq.Qid] = set()
         for moment in noisy_moments:
             for op in ops.flatten_to_ops(moment):
@@ -228,14 +234,19 @@ class SimulatorBase(
             else (resolved_circuit[0:0], resolved_circuit)
         )
         step_result: TStepResultBase | None = None
-        for step_result in self._core_iterator(circuit=prefix, sim_state=sim_state):
+        for step_result in self._core_iterator(
+            circuit=prefix, sim_state=sim_state, noise_qubits=qubits
+        ):
             pass
         assert step_result is not None
 
         general_ops = list(general_suffix.all_operations())
         if all(isinstance(op.gate, ops.MeasurementGate) for op in general_ops):
             for step_result in self._core_iterator(
-                circuit=general_suffix, sim_state=sim_state, all_measurements_are_terminal=True
+                circuit=general_suffix,
+                sim_state=sim_state,
+                all_measurements_are_terminal=True,
+                noise_qubits=qubits,
             ):
                 pass
             assert step_result is not None
@@ -251,6 +262,7 @@ class SimulatorBase(
                 sim_state=(
                     sim_state.copy(deep_copy_buffers=False) if i < repetitions - 1 else sim_state
                 ),
+                noise_qubits=qubits,
             ):
                 pass
             for k, r in step_result._classical_data.records.items():
@@ -311,6 +323,12 @@ class SimulatorBase(
             if self._can_be_in_run_prefix(self.noise)
             else (program[0:0], program)
         )
+        if self.noise is not devices.NO_NOISE and not (
+            prefix.all_qubits() == suffix.all_qubits() == program.all_qubits()
+        ):
+            # The noise model is asked for the noise of each part with that part's qubits as
+            # the system: only split when no qubit of the program is idle in a whole part.
+            prefix, suffix = program[0:0], program
         step_result: TStepResultBase | None = None
         for step_result in self._core_iterator(circuit=prefix, sim_state=sim_state):
             pass
